@@ -22,7 +22,7 @@ class Case:
         self.note = ""
 
 
-def translate(backend: str, src: str, md=None, model: Optional[core.Model] = None) -> Case:
+def translate(backend: str, src: str, md=None, model: Optional[core.Model] = None, write_again: bool = False) -> Case:
     c = Case(backend, src)
     try:
         a = impl.query_ast(src, md)
@@ -31,7 +31,7 @@ def translate(backend: str, src: str, md=None, model: Optional[core.Model] = Non
         c.error = (type(e).__name__, str(e)[:200])
         c.note = "func_adl front end refused the source"
         return c
-    r = impl.translate(backend, a)
+    r = impl.translate(backend, a, write_again=write_again)
     impl.reset_globals()
     if r[0] == "error":
         c.status = "refused"
